@@ -153,6 +153,24 @@ class AgentWorld(object):
         for con in self.contacts:
             con.was_established_at_action = con.hdl._state in ('established', 'ending')
 
+    def late_accept(self):
+        ''' A peer connects to a listening socket of the agent now (Agent._accept is the real callback of the listener). '''
+        index = len(self.contacts)
+        con = Contact(index, 'late', True)
+        addr = ('10.0.1.%d' % (index + 1), 40000)
+
+        class Listener(object):
+            def accept(self_inner):
+                return con.real_sock, addr
+        before = list(self.end.agent._handlers)
+        with simloop.entered(self.end.ctx):
+            self.end.agent._accept(Listener())
+        new = [h for h in self.end.agent._handlers if h not in before]
+        con.hdl = new[0] if new else None
+        con.level = 'full'
+        self.contacts.append(con)
+        return con
+
     def release(self):
         for con in self.contacts:
             con.level = 'full'
